@@ -55,6 +55,7 @@ var (
 	delayWrite time.Duration // sleep before write-class calls
 	delayJit   bool          // if true, sleep a pseudo-random fraction
 	delayCtr   atomic.Uint64
+	delayWipe  atomic.Int64 // nanoseconds to sleep before DeleteAll (the wipe of a deleted instance) only
 )
 
 func init() {
@@ -293,7 +294,14 @@ func (db *CrashKV) DeleteRange(ctx storage.Context, a, b storage.TKey) error {
 	return err
 }
 
+// SetWipeDelay holds every DeleteAll (the asynchronous wipe behind an instance / repo deletion) for d before it starts,
+// without slowing any other store call: the window "deletion acknowledged, entries not yet removed" at a chosen width.
+func SetWipeDelay(d time.Duration) { delayWipe.Store(int64(d)) }
+
 func (db *CrashKV) DeleteAll(ctx storage.Context) error {
+	if d := delayWipe.Load(); d > 0 {
+		time.Sleep(time.Duration(d))
+	}
 	w := beginWrite()
 	err := db.BadgerDB.DeleteAll(ctx)
 	endWrite(w, ctxEvent("deleteall", ctx, nil, 0))
